@@ -13,7 +13,8 @@ CHECKS = {
     design_ref="DESIGN.md 5 C04",
     note="Trusted: harness/netio.project (NaN/number classification, 1e-9 ticks); builder uses public create_* only. "
          "Bounded: exhaustive <=3 junctions/<=2 branches in the model, sampled nets up to 4 junctions/4 branches/2 pipe-valves for replay. "
-         "Hydraulic connectivity only (thermal pattern under C10).",
+         "Thermal pattern: nets with p / t / pt feeders in sequential mode (branch temperatures iff thermally calculated, junctions outside the thermally supplied part at ambient). "
+         "Thorough additionally judges every pipeflow call of the repository's own test-suite (recorded by a pytest plugin; nets up to 60 junctions).",
     technique="TLA+ spec (PPConn/GenConn) model-checked with TLC + TLC-generated nets replayed into pandapipes + trace validation (Trace_PF)"),
  "C14": dict(
     level="model_checking",
